@@ -8,4 +8,6 @@ mod codecs;
 #[cfg(kani)]
 mod message;
 #[cfg(kani)]
+mod builder;
+#[cfg(kani)]
 mod playback_gen;
